@@ -168,9 +168,12 @@ package policy
 //@ // stmtKind names the operator a decoded statement carries (the result of its Kind method)
 //@ pure func stmtKind(s Statement) string =
 //@     s is equality ? s.(equality).kind : (s is negation ? "not" : (s is connective ? s.(connective).kind : (s is wildcard ? "like" : (s is quantifier ? s.(quantifier).kind : ""))))
+//@ // the decoder's verdict on a policy node, named as a function of the node (the decoder is deterministic)
+//@ ghost func polDecErr(n ipld.Node) error
 //@ func FromIPLD
 //@   ensures [C09] total: true
 //@   requires node != nil
+//@   assumes result1 == polDecErr(node)
 //@   use node_sizes, node_list_children
 //@   ensures [C10] bounds: result1 == nil ==> intsInBounds(node)
 //@   ensures [C14,C09] shape: result1 == nil ==> nodeKind(node) == datamodel.Kind_List && len(result0) == listLen(node) && (forall j int :: 0 <= j && j < len(result0) ==> result0[j] != nil && stmtKind(result0[j]) == nodeStr(listElem(listElem(node, j), 0)))
